@@ -64,7 +64,7 @@ class Leg(object):
     chunk  - items per task
     """
     def __init__(self, name, fn, items, chunk=64, exhaustive=True, note='', parallel=True,
-                 bound=None, timeout=1800, src_states=None):
+                 bound=None, timeout=1800, src_states=None, supplementary=False):
         self.name = name
         self.fn = fn
         self.items = items
@@ -75,6 +75,7 @@ class Leg(object):
         self.bound = bound
         self.timeout = timeout
         self.src_states = src_states
+        self.supplementary = supplementary
 
 
 _WORK = {}
@@ -205,7 +206,7 @@ class Run(object):
         for e, its in total['errors']:
             self.errors.append('leg %s: %s' % (leg.name, e))
         out = {'items': len(items), 'transitions': total['n'], 'nontrivial': total['nt'],
-               'exhaustive': bool(leg.exhaustive), 'violations': len(total['viol']),
+               'exhaustive': bool(leg.exhaustive), 'supplementary': bool(leg.supplementary), 'violations': len(total['viol']),
                'wall_s': round(time.time() - t0, 2)}
         if leg.note:
             out['note'] = leg.note
@@ -298,7 +299,8 @@ class Run(object):
                 'distinct_nontrivial': int(nt),
                 'rule': getattr(self.module, 'RULE', ''),
                 'samples': jsonable(samples),
-                'exhaustive': all(l.get('exhaustive', False) for l in legs.values()) if legs else False,
+                'exhaustive': all(l.get('exhaustive', False) for l in legs.values() if not l.get('supplementary')) if legs else False,
+                'caps_hit': [n for n, l in legs.items() if not l.get('exhaustive', False)],
                 'legs': jsonable(legs),
                 'oracle_selfcheck': jsonable(self.selfcheck),
                 'explored_directly_on_implementation': True,
